@@ -551,6 +551,23 @@ def operator_table():
             For(Decl(P("int"), "j", I(1)), Bin("<", Var("j"), I(4)), Asg("j", Bin("+", Var("j"), I(1))),
                 [Expr(Asg("acc", Arr("int", [Var("j"), Bin("*", Var("j"), Var("j"))]))), Echo(Var("acc"))])]
     progs.append(Program([pair, weight, halves, Func("main", [], VOID, body)]))
+    # elements with effects (postfix ++/--, assignment expressions, calls that echo) are evaluated exactly once each, left to right,
+    # wherever the literal is written: typed declaration, argument, right-hand side of an assignment, returned value
+    note = Func("note", [Param(P("int"), "x")], P("int"), [Echo(Var("x")), Ret(Var("x"))])
+    mk = Func("mk", [Param(P("int"), "k")], IA_, [Decl(IA_, "m", Arr("int", [Post("++", "k"), Post("++", "k"), Var("k")])), Ret(Var("m"))])
+    fmk = Func("fmk", [Param(P("int"), "k")], FA_, [Decl(FA_, "m", Arr("float", [F(0, 1), F(0, 1)])), Expr(Asg("m", Arr("float", [Bin("/", Post("++", "k"), I(2)), Bin("/", Var("k"), I(2))]))), Ret(Var("m"))])
+    body = [Decl(P("int"), "n", I(0)),
+            Echo(Call("weight", Arr("int", [Post("++", "n"), Post("++", "n")]))), Echo(Var("n")),
+            Decl(IA_, "r", Arr("int", [Post("++", "n"), Post("--", "n"), Var("n")])), Echo(Var("r")), Echo(Var("n")),
+            Expr(Asg("r", Arr("int", [Post("++", "n"), Call("note", Var("n")), Asg("n", I(9))]))), Echo(Var("r")), Echo(Var("n")),
+            Echo(Call("mk", I(4))), Echo(Call("fmk", I(3))),
+            Echo(Call("weight", Arr("int", [Call("note", I(1)), Call("note", I(2))]))),
+            Decl(A("str"), "names", Arr("str", [S("a"), S("b")])),
+            Expr(Asg("names", Arr("str", [Bin("+", S("a"), Post("++", "n")), Bin("+", S("b"), Var("n"))]))), Echo(Var("names")), Echo(Var("n")),
+            Decl(A("bool"), "fl", Arr("bool", [Bool(False), Bool(False)])),
+            Expr(Asg("fl", Arr("bool", [Bin("==", Post("++", "n"), I(10)), Bin("==", Var("n"), I(11))]))), Echo(Var("fl")), Echo(Var("n")),
+            While(Bin("<", Var("n"), I(20)), [Echo(Call("weight", Arr("int", [Post("++", "n"), Asg("n", Bin("+", Var("n"), I(2)))])))]), Echo(Var("n"))]
+    progs.append(Program([weight, note, mk, fmk, Func("main", [], VOID, body)]))
     # the value of an assignment expression is the value assigned (chains, initialisers, arguments, echo, conditions, widening)
     twice = Func("twice", [Param(P("int"), "x")], P("int"), [Ret(Bin("*", Var("x"), I(2)))])
     body = [Decl(P("int"), "a", I(1)), Decl(P("int"), "b", I(2)), Decl(P("int"), "c", I(3)), Decl(P("long"), "w", L(1)), Decl(P("float"), "f", F(1, 2)), Decl(P("str"), "s", S("x")),
